@@ -56,6 +56,38 @@ Theorem C14_override_in_effect :
 Proof. exact override_in_effect. Qed.
 Print Assumptions C14_override_in_effect.
 
+(* the thread based timeout of the sync stack (system / telnet transports, windows, off the main thread):
+   the pool's exit joins the worker, so when ScrapliTimeout reaches the caller the worker has left the
+   timed read loop through its finally: both timeouts (and the session's) are what they were at the moment
+   the call ENDS, and no thread is left that could write them afterwards.  [joins] is [gen_pool_joins],
+   read from the source on every run (C14_thread_timeout_joins_its_worker). *)
+Theorem C14_thread_timeout_restores_before_the_call_ends :
+  forall (c : cfg) (o : ov) (w : wpos) (k : wake) (s : st),
+    fin c = true -> p_out (pool_call c true o w k s) <> Blocks ->
+    core (p_state (pool_call c true o w k s)) = core s /\ p_late (pool_call c true o w k s) = None.
+Proof. exact pool_call_restores. Qed.
+Print Assumptions C14_thread_timeout_restores_before_the_call_ends.
+
+Theorem C14_thread_timeout_call_ends_unless_read_never_wakes :
+  forall c joins o w k s,
+    p_out (pool_call c joins o w k s) = Blocks <-> (joins = true /\ k = WakeNever /\ o <> OvBad).
+Proof. exact pool_call_blocks_iff. Qed.
+Print Assumptions C14_thread_timeout_call_ends_unless_read_never_wakes.
+
+(* without the join the statement is false: the read duration is the connection's timeout_transport when the
+   call has ended, and the abandoned worker's restore later overwrites what the user assigned meanwhile *)
+Theorem C14_thread_timeout_unjoined_refuted :
+  forall hs, p_out (pool_witness hs) = Raised ETimeout /\ ops (p_state (pool_witness hs)) = 30000
+             /\ tr (p_state (pool_witness hs)) = 5000.
+Proof. exact pool_unjoined_refuted. Qed.
+Print Assumptions C14_thread_timeout_unjoined_refuted.
+
+Theorem C14_thread_timeout_unjoined_late_write :
+  forall hs, tr (user_sets (mkcfg true hs) (Some (20000, 11000)) (p_state (pool_witness hs))) = 11000
+             /\ tr (settled (mkcfg true hs) (Some (20000, 11000)) (pool_witness hs)) = 30000.
+Proof. exact pool_unjoined_late_write. Qed.
+Print Assumptions C14_thread_timeout_unjoined_late_write.
+
 (* the code of the pinned commit (restore after the loop / on match / on ScrapliTimeout only) *)
 Theorem C14_pinned_refuted : forall hs, ~ C14_full (cfg_pinned hs).
 Proof. exact pinned_refuted. Qed.
@@ -101,3 +133,19 @@ Theorem C14_default_read_timeout_is_neutral :
                  (if (gen_next_timeout_default >=? 0)%Z then gen_next_timeout_default else tr s) s)) = core s.
 Proof. intros c g s; apply negative_read_timeout_is_neutral; vm_compute; reflexivity. Qed.
 Print Assumptions C14_default_read_timeout_is_neutral.
+
+(* the thread based timeout joins its worker: the one executor of decorators.py is left through a context
+   manager / shutdown(wait=True) in a finally that covers every raise and return, and nothing else in that
+   module starts a thread *)
+Theorem C14_thread_timeout_joins_its_worker :
+  gen_pool_joins = true /\ gen_thread_sites = thread_sites.
+Proof. split; vm_compute; reflexivity. Qed.
+Print Assumptions C14_thread_timeout_joins_its_worker.
+
+(* ... hence, for the source as it is: *)
+Theorem C14_thread_timeout_restores_as_the_source_is :
+  forall (c : cfg) (o : ov) (w : wpos) (k : wake) (s : st),
+    fin c = true -> p_out (pool_call c gen_pool_joins o w k s) <> Blocks ->
+    core (p_state (pool_call c gen_pool_joins o w k s)) = core s /\ p_late (pool_call c gen_pool_joins o w k s) = None.
+Proof. exact pool_call_restores. Qed.
+Print Assumptions C14_thread_timeout_restores_as_the_source_is.
